@@ -225,6 +225,8 @@ class Engine:
                 msg = str(e) + " @ " + " > ".join(f"{a.split('>::')[-1]}:{b}" for a, b in getattr(e, "mir_stack", [])[-6:])
                 h = getattr(self, "on_panic", None)
                 results.append(("panic", list(self.decisions), h(self, self.cur_ctx, msg) if h else msg))
+                if "recursion budget exceeded" in msg:
+                    self.total_paths += 1; break        # non-termination found in this work item: its siblings would only repeat it, slowly
             except Infeasible:
                 pass
             self.total_paths += 1
